@@ -37,20 +37,22 @@ def build(facts):
     U, PV = E.U, E.U.PV
     shape = S.shape()
     x = z3.Const("x", PV)
-    p = z3.Const("p!c17", PV)
 
-    rooted_at = z3.RecFunction("rooted_at", PV, PV, z3.BoolSort())
-    z3.RecAddDefinition(rooted_at, [x, p], z3.And(
-        U.is_kind("Attribute", p),
-        z3.Or(U.field("Attribute", "owner", p) == x, rooted_at(x, U.field("Attribute", "owner", p)))))
+    from vc.deffun import DefFun
+    B_ = z3.BoolSort()
+    fld = U.field
 
-    drop_first = z3.RecFunction("drop_first", PV, PV)
-    owner = U.field("Attribute", "owner", p)
-    attr = U.field("Attribute", "attr", p)
-    z3.RecAddDefinition(drop_first, [p], z3.If(
-        U.is_kind("Attribute", owner),
-        U.node("Attribute", drop_first(owner), attr),
-        U.node("Identifier", attr, U.tuplev(z3.Empty(U.Seq)))))
+    def rooted_body(xx, pp):
+        return z3.And(U.is_kind("Attribute", pp),
+                      z3.Or(fld("Attribute", "owner", pp) == xx, rooted_at(xx, fld("Attribute", "owner", pp))))
+    rooted_at = DefFun("rooted_at", [PV, PV], B_, rooted_body, cheap=True)
+
+    def drop_body(pp):
+        owner = fld("Attribute", "owner", pp)
+        attr = fld("Attribute", "attr", pp)
+        return z3.If(U.is_kind("Attribute", owner), U.node("Attribute", drop_first(owner), attr),
+                     U.node("Identifier", attr, U.tuplev(z3.Empty(U.Seq))))
+    drop_first = DefFun("drop_first", [PV], PV, drop_body, cheap=True)
 
     def special(f, fmap, extras, e):
         (xx,) = extras
@@ -59,22 +61,24 @@ def build(facts):
     reroot, reroot_map = S.node_map("reroot", [PV], special)
 
     # mentions(x, e): some path inside e is rooted at x
-    mentions = z3.RecFunction("mentions", PV, PV, z3.BoolSort())
-    mentions_any = z3.RecFunction("mentions_any", PV, U.Seq, z3.BoolSort())
-    e, q = S.e, S.q
-    n = z3.Length(q)
-    z3.RecAddDefinition(mentions_any, [x, q], z3.If(n == 0, z3.BoolVal(False), z3.Or(
-        z3.And(U.is_node(q[0]), mentions(x, q[0])), mentions_any(x, z3.SubSeq(q, 1, n - 1)))))
-    body = z3.BoolVal(False)
-    for k in reversed(facts.kinds):
-        parts = []
-        for fn in facts.kind_fields[k]:
-            t = U.field(k, fn, e)
-            parts.append(z3.If(U.is_tag("ListV", t), mentions_any(x, PV.items(t)),
-                               z3.And(U.is_node(t), mentions(x, t))))
-        here = rooted_at(x, e) if k == "Attribute" else z3.BoolVal(False)
-        body = z3.If(U.is_kind(k, e), z3.Or(here, *parts) if parts else here, body)
-    z3.RecAddDefinition(mentions, [x, e], body)
+    def mentions_any_body(xx, q):
+        n = z3.Length(q)
+        return z3.If(n == 0, z3.BoolVal(False), z3.Or(
+            z3.And(U.is_node(q[0]), mentions(xx, q[0])), mentions_any(xx, z3.SubSeq(q, 1, n - 1))))
+    mentions_any = DefFun("mentions_any", [PV, U.Seq], B_, mentions_any_body, cheap=True)
+
+    def mentions_body(xx, e):
+        body = z3.BoolVal(False)
+        for k in reversed(facts.kinds):
+            parts = []
+            for fn in facts.kind_fields[k]:
+                t = fld(k, fn, e)
+                parts.append(z3.If(U.is_tag("ListV", t), mentions_any(xx, PV.items(t)),
+                                   z3.And(U.is_node(t), mentions(xx, t))))
+            here = rooted_at(xx, e) if k == "Attribute" else z3.BoolVal(False)
+            body = z3.If(U.is_kind(k, e), z3.Or(here, *parts) if parts else here, body)
+        return body
+    mentions = DefFun("mentions", [PV, PV], B_, mentions_body)
 
     ctx = dict(E=E, S=S, U=U, PV=PV, shape=shape, x=x, reroot=reroot, reroot_map=reroot_map,
                rooted_at=rooted_at, drop_first=drop_first, mentions=mentions, mentions_any=mentions_any)
